@@ -531,7 +531,7 @@ class Walker:
         elif cls == 6:
             p = self._compound(d, t, where, pad_ok)
         elif cls == 7:
-            if bits > 1:
+            if bits > 1 and not ((bits & 0xF) < 5 and bits < 256):     # 2-4: the revised references of library 1.12 (bits 4-7: their version)
                 raise SpecError("%s: reference type %d" % (where, bits & 0xF))
         elif cls == 8:
             p = self._enum(d, t, where, pad_ok, top)
@@ -1470,7 +1470,7 @@ class Walker:
             e = sb["root_entry"]
             if e["cache"] == 1 and root.get("stab") != (e["btree"], e["heap"]):
                 self.errors.append("superblock: cached root B-tree/heap addresses %s differ from the root group's symbol table message %s" % ((e["btree"], e["heap"]), root.get("stab")))
-            if e["cache"] != 1:
+            if e["cache"] not in (0, 1):        # 0: nothing cached (legal, the reference library reads the header); 2 is for symbolic links
                 self.errors.append("superblock: root symbol table entry cache type %d" % e["cache"])
         for a, nd in self.objects.items():
             if "error" in nd:
